@@ -106,6 +106,8 @@ def conjuncts(expr, positive=True) -> List[Tuple[ast.AST, bool]]:
     """Flatten a condition into (leaf, polarity) conjuncts that must all hold when expr evaluates to `positive`."""
     if isinstance(expr, ast.UnaryOp) and isinstance(expr.op, ast.Not):
         return conjuncts(expr.operand, not positive)
+    if isinstance(expr, ast.Call) and isinstance(expr.func, ast.Name) and expr.func.id == 'bool' and len(expr.args) == 1 and not expr.keywords:
+        return conjuncts(expr.args[0], positive)
     if isinstance(expr, ast.BoolOp):
         if (isinstance(expr.op, ast.And) and positive) or (isinstance(expr.op, ast.Or) and not positive):
             out = []
